@@ -1,44 +1,155 @@
 /-
 The history log of the reference semantics (`St.log`, `AslModel/Interp.lean`) only grows, and the
 `trace` grows with it: whatever one of the seven mutually recursive functions does to the state, the
-new log is the old one with some events put in front, and the new trace is the old one with the names
-of the `entered` events among them put in front (`Grows`).  Mutual induction on the fuel.
+new log is the old one with some events put in front — none of them an `Execution…` event —, and the
+new trace is the old one with the names of the `entered` events among them put in front (`Grows`).
+Mutual induction on the fuel.
 -/
 import AslModel.Interp
 namespace Asl
 
 def Ev.enteredName : Ev → Option Str
-  | .entered n _ => some n
-  | .exited _ _ => none
+  | .entered _ n _ => some n
+  | _ => none
 
 /-- the names of the `entered` events, in the order of the list -/
 def enteredNames (l : List Ev) : List Str := l.filterMap Ev.enteredName
 
-/-- `st'` is `st` after some more events (most recent first) -/
-def Grows (st st' : St) : Prop :=
-  ∃ evs, st'.log = evs ++ st.log ∧ st'.trace = enteredNames evs ++ st.trace
+/-- the outcome of a task invocation as the task dispatcher files it -/
+def Ev.isReply : Ev → Bool
+  | .lambdaSucceeded _ => true
+  | .lambdaFailed _ _ => true
+  | _ => false
 
-theorem Grows.refl (st : St) : Grows st st := ⟨[], rfl, rfl⟩
+def Ev.isScheduled : Ev → Bool
+  | .lambdaScheduled _ _ => true
+  | _ => false
+
+/-- in a list of events given most recent first: every reply event is directly preceded in time (followed
+in the list) by a `LambdaFunctionScheduled` -/
+def bracketed : List Ev → Bool
+  | [] => true
+  | e :: rest =>
+    (if e.isReply then (match rest with | s :: _ => s.isScheduled | [] => false) else true) && bracketed rest
+
+theorem bracketed_append (a b : List Ev) (ha : bracketed a = true) (hb : bracketed b = true) :
+    bracketed (a ++ b) = true := by
+  induction a with
+  | nil => simpa using hb
+  | cons e rest ih =>
+    simp only [bracketed, Bool.and_eq_true] at ha
+    simp only [List.cons_append, bracketed, Bool.and_eq_true]
+    refine ⟨?_, ih ha.2⟩
+    cases rest with
+    | nil =>
+      cases hr : e.isReply
+      · simp
+      · simp [hr] at ha
+    | cons s rest' => simpa using ha.1
+
+/-- what `bracketed` says about a list given most recent first -/
+theorem bracketed_spec (l pre post : List Ev) (e : Ev) (h : bracketed l = true) (hl : l = pre ++ e :: post)
+    (he : e.isReply = true) : ∃ s post', post = s :: post' ∧ s.isScheduled = true := by
+  subst hl
+  induction pre with
+  | nil =>
+    simp only [List.nil_append, bracketed, he, if_true, Bool.and_eq_true] at h
+    cases post with
+    | nil => simp at h
+    | cons s post' => exact ⟨s, post', rfl, h.1⟩
+  | cons p ps ih =>
+    simp only [List.cons_append, bracketed, Bool.and_eq_true] at h
+    exact ih h.2
+
+/-- `st'` is `st` after some more events (most recent first): none of them opens / closes the execution,
+and every reply event among them has its `LambdaFunctionScheduled` right before it -/
+def Grows (st st' : St) : Prop :=
+  ∃ evs, st'.log = evs ++ st.log ∧ st'.trace = enteredNames evs ++ st.trace ∧ (∀ e ∈ evs, e.isExec = false) ∧
+    bracketed evs = true
+
+theorem Grows.refl (st : St) : Grows st st := ⟨[], rfl, rfl, by simp, rfl⟩
 
 theorem Grows.trans {a b c : St} (h1 : Grows a b) (h2 : Grows b c) : Grows a c := by
-  obtain ⟨e1, l1, t1⟩ := h1
-  obtain ⟨e2, l2, t2⟩ := h2
-  refine ⟨e2 ++ e1, ?_, ?_⟩
+  obtain ⟨e1, l1, t1, x1, b1⟩ := h1
+  obtain ⟨e2, l2, t2, x2, b2⟩ := h2
+  refine ⟨e2 ++ e1, ?_, ?_, ?_, bracketed_append _ _ b2 b1⟩
   · rw [l2, l1, List.append_assoc]
   · rw [t2, t1, enteredNames, enteredNames, enteredNames, List.filterMap_append, List.append_assoc]
+  · intro e he
+    rcases List.mem_append.mp he with h | h
+    · exact x2 e h
+    · exact x1 e h
 
 /-- changes to the other fields -/
 theorem grows_same (st st' : St) (hl : st'.log = st.log) (ht : st'.trace = st.trace) : Grows st st' :=
-  ⟨[], by simpa using hl, by simpa [enteredNames] using ht⟩
+  ⟨[], by simpa using hl, by simpa [enteredNames] using ht, by simp, rfl⟩
 
-theorem grows_enter (st : St) (name : Str) (data : Json) (r : Nat) : Grows st (st.enter name data r) := by
+theorem grows_enter (st : St) (ty name : Str) (data : Json) (r : Nat) : Grows st (st.enter ty name data r) := by
   unfold St.enter
   split
-  · exact ⟨[.entered name data], rfl, rfl⟩
+  · exact ⟨[.entered ty name data], rfl, rfl, by simp [Ev.isExec], rfl⟩
   · exact Grows.refl _
 
-theorem grows_exit (st : St) (name : Str) (data : Json) : Grows st (st.exit name data) :=
-  ⟨[.exited name data], rfl, rfl⟩
+theorem grows_exit (st : St) (ty name : Str) (data : Json) : Grows st (st.exit ty name data) :=
+  ⟨[.exited ty name data], rfl, rfl, by simp [Ev.isExec], rfl⟩
+
+/-- one event that is neither a state entry, nor an execution event, nor a reply -/
+theorem grows_push (st : St) (e : Ev) (hn : e.enteredName = none) (hx : e.isExec = false) (hr : e.isReply = false) :
+    Grows st (st.push e) :=
+  ⟨[e], rfl, by simp [enteredNames, St.push, hn], by simpa using hx, by simp [bracketed, hr]⟩
+
+theorem replyEv_plain (m : Nat) (r : Json) : (replyEv m r).enteredName = none ∧ (replyEv m r).isExec = false := by
+  unfold replyEv
+  repeat' split
+  all_goals exact ⟨rfl, rfl⟩
+
+/-- a reply is filed as `LambdaFunctionSucceeded` or `LambdaFunctionFailed` -/
+theorem replyEv_isReply (m : Nat) (r : Json) : (replyEv m r).isReply = true := by
+  unfold replyEv
+  repeat' split
+  all_goals rfl
+
+theorem grows_taskCall (st : St) (counts : List ((Str × Json) × Nat)) (res : Str) (p r : Json) (m : Nat) :
+    Grows st (st.taskCall counts res p r m) :=
+  ⟨[replyEv m r, .lambdaScheduled p res], rfl,
+   by
+     have h1 := (replyEv_plain m r).1
+     have h2 : (Ev.lambdaScheduled p res).enteredName = none := rfl
+     simp only [enteredNames, List.filterMap_cons, h1, h2, List.filterMap_nil, List.nil_append]
+     rfl,
+   by intro e he; simp at he; rcases he with h | h <;> subst h <;> first | exact (replyEv_plain m r).2 | rfl,
+   by rw [bracketed, replyEv_isReply]; rfl⟩
+
+/-! right extensions: the shapes the interpreter builds states with -/
+
+theorem Grows.exit {a b : St} (h : Grows a b) (ty name : Str) (d : Json) : Grows a (b.exit ty name d) :=
+  h.trans (grows_exit _ _ _ _)
+
+theorem Grows.enter {a b : St} (h : Grows a b) (ty name : Str) (d : Json) (r : Nat) : Grows a (b.enter ty name d r) :=
+  h.trans (grows_enter _ _ _ _ _)
+
+theorem Grows.push {a b : St} (h : Grows a b) (e : Ev) (hn : e.enteredName = none) (hx : e.isExec = false)
+    (hr : e.isReply = false) : Grows a (b.push e) := h.trans (grows_push _ _ hn hx hr)
+
+theorem Grows.fanFailedIf {a b : St} (h : Grows a b) (state : Json) : Grows a (b.fanFailedIf state) := by
+  unfold St.fanFailedIf
+  split
+  · exact h.push _ rfl rfl rfl
+  · exact h
+
+theorem Grows.iterEnd {a b : St} (h : Grows a b) (name : Str) (i : Nat) (r : Res) : Grows a (b.iterEnd name i r) := by
+  unfold St.iterEnd
+  split
+  · exact h.push _ rfl rfl rfl
+  · exact h
+
+theorem Grows.taskCall {a b : St} (h : Grows a b) (counts : List ((Str × Json) × Nat)) (res : Str) (p r : Json) (m : Nat) :
+    Grows a (b.taskCall counts res p r m) := by
+  exact h.trans (grows_taskCall _ _ _ _ _ _)
+
+theorem Grows.fanFail {a b : St} (h : Grows a b) : Grows a { b with fanFail := true } := h.trans (grows_same _ _ rfl rfl)
+theorem Grows.multiFail {a b : St} (h : Grows a b) : Grows a { b with multiFail := true } :=
+  h.trans (grows_same _ _ rfl rfl)
 
 /-- the seven functions at fuel `n` -/
 structure GrowsAll (env : Env) (n : Nat) : Prop where
@@ -59,56 +170,66 @@ section step
 variable (env : Env) (n : Nat) (ih : GrowsAll env n)
 include ih
 
+/-! the calls, as right extensions -/
+theorem GrowsAll.thenFrom {a b : St} (h : Grows a b) (states : Json) (name : Str) (data ctx : Json) (r : Nat) :
+    Grows a (Asl.runFrom env n states name data ctx r b).2 := h.trans (ih.runFrom _ _ _ _ _ _)
+theorem GrowsAll.thenLeave {a b : St} (h : Grows a b) (states : Json) (name : Str) (state raw data ctx : Json) (r : Nat) :
+    Grows a (Asl.leave env n states name state raw data ctx r b).2 := h.trans (ih.leave _ _ _ _ _ _ _ _)
+theorem GrowsAll.thenErr {a b : St} (h : Grows a b) (states : Json) (name : Str) (state data ctx : Json) (r : Nat)
+    (e msg : Str) : Grows a (Asl.handleErr env n states name state data ctx r e msg b).2 :=
+  h.trans (ih.handleErr _ _ _ _ _ _ _ _ _)
+theorem GrowsAll.thenState {a b : St} (h : Grows a b) (states : Json) (name : Str) (state data ctx : Json) (r : Nat) :
+    Grows a (Asl.runState env n states name state data ctx r b).2 := h.trans (ih.runState _ _ _ _ _ _ _)
+theorem GrowsAll.thenJoin {a b : St} (h : Grows a b) (states : Json) (name : Str) (state data ctx : Json) (r : Nat)
+    (res : Except Res (List Json)) :
+    Grows a (Asl.joinAndLeave env n states name state data ctx r res b).2 := h.trans (ih.joinAndLeave _ _ _ _ _ _ _ _)
+theorem GrowsAll.thenBranches {a b : St} (h : Grows a b) (bs : List Json) (params ctx : Json) :
+    Grows a (Asl.runBranches env n bs params ctx b).2 := h.trans (ih.runBranches _ _ _ _)
+theorem GrowsAll.thenItems {a b : St} (h : Grows a b) (proc : Json) (sel : Option Json) (input : Json)
+    (items : List Json) (i : Nat) (ctx : Json) :
+    Grows a (Asl.runItems env n proc sel input items i ctx b).2 := h.trans (ih.runItems _ _ _ _ _ _ _)
+
+set_option hygiene false in
+local macro "grow_step" : tactic => `(tactic|
+  repeat' (first
+    | split
+    | exact Grows.refl _
+    | apply GrowsAll.thenFrom env n ih
+    | apply GrowsAll.thenLeave env n ih
+    | apply GrowsAll.thenErr env n ih
+    | apply GrowsAll.thenState env n ih
+    | apply GrowsAll.thenJoin env n ih
+    | apply GrowsAll.thenBranches env n ih
+    | apply GrowsAll.thenItems env n ih
+    | apply Grows.exit
+    | apply Grows.enter
+    | apply Grows.fanFailedIf
+    | apply Grows.iterEnd
+    | apply Grows.taskCall
+    | apply Grows.fanFail
+    | apply Grows.multiFail
+    | (apply Grows.push (hn := rfl) (hx := rfl) (hr := rfl))))
+
 theorem grows_runFrom_step (states : Json) (name : Str) (data ctx : Json) (r : Nat) (st : St) :
     Grows st (runFrom env (n + 1) states name data ctx r st).2 := by
   simp only [runFrom]
-  split
-  · exact Grows.refl _
-  · exact (grows_enter _ _ _ _).trans (ih.runState _ _ _ _ _ _ _)
+  grow_step
 
 theorem grows_leave_step (states : Json) (name : Str) (state raw data ctx : Json) (r : Nat) (st : St) :
     Grows st (leave env (n + 1) states name state raw data ctx r st).2 := by
   simp only [leave]
-  repeat' (first
-    | exact Grows.refl _
-    | exact grows_exit _ _ _
-    | exact ih.handleErr _ _ _ _ _ _ _ _ _
-    | exact (grows_exit _ _ _).trans (ih.runFrom _ _ _ _ _ _)
-    | split)
+  grow_step
 
 theorem grows_handleErr_step (states : Json) (name : Str) (state data ctx : Json) (r : Nat) (e msg : Str) (st : St) :
     Grows st (handleErr env (n + 1) states name state data ctx r e msg st).2 := by
   simp only [handleErr]
-  repeat' (first
-    | exact Grows.refl _
-    | exact ih.runFrom _ _ _ _ _ _
-    | exact (grows_exit _ _ _).trans (ih.runFrom _ _ _ _ _ _)
-    | split)
+  grow_step
 
 theorem grows_joinAndLeave_step (states : Json) (name : Str) (state data ctx : Json) (r : Nat)
     (res : Except Res (List Json)) (st : St) :
     Grows st (joinAndLeave env (n + 1) states name state data ctx r res st).2 := by
   simp only [joinAndLeave]
-  repeat' (first
-    | exact Grows.refl _
-    | exact ih.handleErr _ _ _ _ _ _ _ _ _
-    | exact ih.leave _ _ _ _ _ _ _ _
-    | exact (grows_same _ _ rfl rfl).trans (ih.handleErr _ _ _ _ _ _ _ _ _)
-    | split)
-
-set_option hygiene false in
-local macro "grow_step" : tactic => `(tactic|
-  repeat' (first
-    | exact Grows.refl _
-    | exact grows_exit _ _ _
-    | exact ih.handleErr _ _ _ _ _ _ _ _ _
-    | exact ih.leave _ _ _ _ _ _ _ _
-    | exact (grows_exit _ _ _).trans (ih.runFrom _ _ _ _ _ _)
-    | exact (grows_same _ _ rfl rfl).trans (ih.handleErr _ _ _ _ _ _ _ _ _)
-    | exact (grows_same _ _ rfl rfl).trans (ih.leave _ _ _ _ _ _ _ _)
-    | exact (ih.runBranches _ _ _ _).trans (ih.joinAndLeave _ _ _ _ _ _ _ _)
-    | exact (ih.runItems _ _ _ _ _ _ _).trans (ih.joinAndLeave _ _ _ _ _ _ _ _)
-    | split))
+  grow_step
 
 theorem grows_runState_step (states : Json) (name : Str) (state data ctx : Json) (r : Nat) (st : St) :
     Grows st (runState env (n + 1) states name state data ctx r st).2 := by
@@ -157,7 +278,7 @@ theorem grows_runBranches_step (bs : List Json) (params ctx : Json) (st : St) :
           rw [hrest] at g2
           have g := g1.trans g2
           simp only
-          split <;> first | exact g | exact g.trans (grows_same _ _ rfl rfl)
+          split <;> first | exact g | exact g.multiFail
     · exact Grows.refl _
 
 theorem grows_runItems_step (proc : Json) (sel : Option Json) (input : Json) (items : List Json) (i : Nat)
@@ -168,21 +289,23 @@ theorem grows_runItems_step (proc : Json) (sel : Option Json) (input : Json) (it
   | cons item items =>
     simp only [runItems]
     split
-    · exact grows_same _ _ rfl rfl
+    · exact (Grows.refl _).multiFail
     · rename_i params hp
       split
       · rename_i start states hs hst
-        have g1 := ih.runFrom states start params ctx 0 st
-        cases hr : runFrom env n states start params ctx 0 st with
+        have g0 : Grows st (st.push (.iterStarted (ctxStateName ctx) i)) := (Grows.refl _).push _ rfl rfl rfl
+        have g1 := g0.trans (ih.runFrom states start params ctx 0 (st.push (.iterStarted (ctxStateName ctx) i)))
+        cases hr : runFrom env n states start params ctx 0 (st.push (.iterStarted (ctxStateName ctx) i)) with
         | mk r1 s1 =>
           rw [hr] at g1
-          have g2 := ih.runItems proc sel input items (i + 1) ctx s1
-          cases hrest : runItems env n proc sel input items (i + 1) ctx s1 with
+          have g1' := g1.iterEnd (ctxStateName ctx) i r1
+          have g2 := ih.runItems proc sel input items (i + 1) ctx (s1.iterEnd (ctxStateName ctx) i r1)
+          cases hrest : runItems env n proc sel input items (i + 1) ctx (s1.iterEnd (ctxStateName ctx) i r1) with
           | mk rest s2 =>
             rw [hrest] at g2
-            have g := g1.trans g2
+            have g := g1'.trans g2
             simp only
-            split <;> first | exact g | exact g.trans (grows_same _ _ rfl rfl)
+            split <;> first | exact g | exact g.multiFail
       · exact Grows.refl _
 
 end step
